@@ -169,6 +169,28 @@ def valid_range_test (inp : List V) (valid_span : V × V) (start_inclusive : Boo
       flag_arr := setWhereB flag_arr (geS inp valid_span_1) .fail
   flag_arr := setWhere flag_arr (maskOf inp) .missing
   return flag_arr
+
+def flat_line_test (inp : List V) (tinp : List Int) (suspect_threshold : Rat) (fail_threshold : Rat) (tolerance : Rat) : Res := do
+  let inp := ofInput inp
+  let mut flag_arr := ones inp.length
+  if inp.length < 3 then
+    flag_arr := setWhere flag_arr (maskOf inp) .missing
+    return flag_arr
+  let mut time_interval := medianStep tinp
+  let run_test := fun (flag_arr : List Flag) (test_threshold : Rat) (flag_value : Flag) =>
+    let count := flatCount test_threshold time_interval
+    let window := rollingWindow inp count
+    let data_min := rowMin window
+    let data_max := rowMax window
+    let data_range := uf1 Fl.abs (maBin Fl.sub data_max data_min)
+    let test_results := filledFalse (ltS data_range tolerance)
+    let n_fill := min inp.length count
+    let test_results := insertFalse n_fill test_results
+    setWhere flag_arr test_results flag_value
+  flag_arr := run_test flag_arr suspect_threshold .suspect
+  flag_arr := run_test flag_arr fail_threshold .fail
+  flag_arr := setWhere flag_arr (maskOf inp) .missing
+  return flag_arr
 -- END GENERATED
 
 end IoosQc.NpSrc
